@@ -215,6 +215,9 @@ pub fn render_type(td: &TypeDef, m: &Module) -> String {
     if let Some(t) = &a.type_override {
         ts.push(format!("type = {}", lit(t)));
     }
+    if let Some(t) = &a.as_type {
+        ts.push(format!("as = {}", lit(&render_ty(t, m))));
+    }
     let concrete: Vec<String> = td.params.iter().filter_map(|p| p.concrete.as_ref().map(|c| format!("{} = {}", p.name, render_ty(c, m)))).collect();
     // two concretised parameters: in one list, or split over two attributes (by identifier length)
     let split_concrete = concrete.len() >= 2 && td.ident.len() % 3 != 0;
@@ -276,6 +279,9 @@ pub fn render_type(td: &TypeDef, m: &Module) -> String {
                 }
                 if !serde.is_empty() {
                     out.push_str(&format!("        #[{}({})]\n", if m.serde { "serde" } else { "ts" }, serde.join(", ")));
+                }
+                if let Some(t) = &v.as_type {
+                    out.push_str(&format!("        #[ts(as = {})]\n", lit(&render_ty(t, m))));
                 }
                 match &v.body {
                     VBody::Unit => out.push_str(&format!("        {},\n", v.ident)),
